@@ -75,6 +75,7 @@ def main(ctx):
     for auth in (0, 1):
         jobs.append({"kind": "burst", "auth": auth, "mode": 0, "depth": 2, "tier": "quick"})
     jobs.append({"kind": "rejoin"})
+    jobs.append({"kind": "extra"})
     for fw in ("tx", "aio"):
         ctx.pmap({"fw": fw, "nvx": "1"}, "props.c06:job", jobs, chunksize=4)
     c = ctx.counters
@@ -95,7 +96,7 @@ def main(ctx):
             "two_challenge_rounds", "pending_failed_by_goodbye", "pending_failed_by_loss",
             "api_after_end_checked", "late_requests_checked", "onleave_after_failed_challenge",
             "executions_full_depth", "nontrivial", "burst_execs", "burst:WELCOME+GOODBYE",
-            "burst:CHALLENGE+ABORT", "burst:WELCOME+lose", "rejoin_execs"]
+            "burst:CHALLENGE+ABORT", "burst:WELCOME+lose", "rejoin_execs", "extra_execs"]
     if tier == "thorough":
         need += ["beh:onWelcome:pending", "beh:onChallenge:pending", "beh:onJoin:pending",
                  "beh:onLeave:pending", "ev:done"]
@@ -726,9 +727,102 @@ def _job_rejoin(a):
             "samples": [{"kind": "rejoin", "sequences": n}]}
 
 
+def _job_extra(a):
+    """two fault / history dimensions beyond the main exploration:
+    (1) ITransport.send() fails exactly at the GOODBYE of leave(): nothing reached the router, so this
+        side has NOT initiated closing: a router GOODBYE must still be answered and a second leave()
+        must send GOODBYE;
+    (2) a call the application has cancelled (CANCEL sent, router confirmation outstanding) is still
+        pending when the session ends (router GOODBYE / transport loss), together with other
+        requests: the end of the session must fail every other pending request, fire leave, and let
+        no exception escape."""
+    from mc import worker
+    from harness import wamp_l1 as H
+    from autobahn.wamp import message as M
+    from autobahn.exception import PayloadExceededError
+    env = worker.ENV
+    viol = []
+    n = 0
+
+    def bad(clause, detail):
+        viol.append({"sig": "C06|extra-%s" % clause, "desc": "[fw=%s] %s" % (env.get("fw"), detail),
+                     "replay": {"env": {"fw": env.get("fw"), "nvx": "1"}, "func": "props.c06:job", "arg": a}})
+    # ---- (1) send failure at GOODBYE
+    for after in ("router-goodbye", "leave-again"):
+        l1 = H.L1()
+        l1.join()
+        s, tr = l1.session, l1.transport
+        tr.fail_send = PayloadExceededError("transport refuses the GOODBYE (too long)")
+        n0 = len(tr.sent)
+        r = l1.api(s.leave, "wamp.close.normal", "x" * 50)
+        l1.settle()
+        n += 1
+        if tr.sent[n0:]:
+            raise RuntimeError("harness: failing send recorded a message")
+        if after == "router-goodbye":
+            exc = l1.deliver(M.Goodbye("wamp.close.system_shutdown"))
+            l1.settle()
+            sent = [type(m_).__name__ for m_ in tr.sent[n0:]]
+            if exc is not None or sent != ["Goodbye"]:
+                bad("goodbye-unanswered-after-failed-leave", "leave() failed in send() (%r), then the router's "
+                    "GOODBYE: exc=%r, we sent %s (nothing of ours had reached the router, so its GOODBYE must "
+                    "be answered)" % (r[1] if r[0] == "raise" else r, exc, sent))
+        else:
+            r2 = l1.api(s.leave)
+            l1.settle()
+            sent = [type(m_).__name__ for m_ in tr.sent[n0:]]
+            if sent != ["Goodbye"]:
+                bad("leave-retry-sends-nothing", "leave() failed in send(), second leave() -> %r, sent %s" % (
+                    r2[:1], sent))
+    # ---- (2) cancelled call pending at session end
+    for end in ("router-goodbye", "lost-clean", "lost-unclean"):
+        l1 = H.L1()
+        l1.join()
+        s, tr = l1.session, l1.transport
+        n0 = len(tr.sent)
+        d_cancel = s.call("com.p.slow", 1)
+        l1.track("cancelled", d_cancel)
+        d_other = s.call("com.p.other", 2)
+        l1.track("other", d_other)
+        d_reg = s.register(lambda *x, **y: None, "com.p.reg")
+        l1.track("reg", d_reg)
+        l1.settle()
+        try:
+            d_cancel.cancel()
+        except Exception as e:
+            bad("cancel-raised", repr(e))
+        l1.settle()
+        kinds = [type(m_).__name__ for m_ in tr.sent[n0:]]
+        if "Cancel" not in kinds:
+            raise RuntimeError("harness: cancel() sent no CANCEL: %s" % kinds)
+        r0 = len(s.rec)
+        if end == "router-goodbye":
+            exc = l1.deliver(M.Goodbye("wamp.close.system_shutdown"))
+        else:
+            exc = l1.lose(end == "lost-clean")
+        l1.settle()
+        n += 1
+        if exc is not None:
+            bad("escape-at-session-end", "%s with a cancelled call pending: %r" % (end, exc))
+        for lb in ("other", "reg"):
+            st = l1.fstate(lb)
+            if st[0] != "err":
+                bad("pending-not-failed", "%s with a cancelled call pending: request %r is %r" % (
+                    end, lb, l1.fbrief(lb)))
+        cbs = [x[0] for x in s.rec[r0:]]
+        if "onLeave" not in cbs:
+            bad("leave-not-fired", "%s with a cancelled call pending: callbacks %s" % (end, cbs))
+        if end == "router-goodbye" and not tr.calls:
+            bad("transport-not-closed", "router GOODBYE with a cancelled call pending: no close requested")
+    return {"evals": n, "viol": viol, "stats": {"extra_execs": n, "nontrivial": n, "execs": n},
+            "samples": [{"kind": "extra", "cases": n}]}
+
+
 def job(a):
     if a.get("kind") == "rejoin":
         return _job_rejoin(a)
+    if a.get("kind") == "extra":
+        return _job_extra(a)
     import collections
     from mc import worker
     from mc.core import explore
